@@ -2,8 +2,31 @@
 
 S (schedules): stateless exploration of 2-3 real threads through the library's shared-state sections under the baton
 scheduler of verif.mc.sched (line-level scheduling points on the declared code objects, preemption bounding).
-H (histories): every ordered pair (and triples over a sub-alphabet) of extractions in one process; after every step the
+H (histories): every ordered pair (and triples over a sub-alphabet) of OPERATIONS in one process; after every step the
 result digest equals the isolated baseline (fresh process) and the process-global state snapshot is unchanged.
+
+Operations: "<doc>" = extract the document and serialise every result (to_json); "restore:<doc>" = restore
+(ExtractionInterface.from_json) the payload that a FRESH process stored for <doc>, digest = class names + re-serialisation.
+Restore operations exist for one document per result class (the smallest payload of each class).
+
+Documents: fixtures of every format family, truncated fixtures (rejected at the front door), generated packages (incl. ones
+lacking optional parts, under different path arguments) and the deep-nesting family of c15_docs (well-formed documents on
+which a recursive extractor gives up - if at all - in the middle of its walk: shape x depth ladder L0/4, 2 L0, 16 L0, 128 L0).
+
+Two kinds of histories:
+  warm  (fmt "hist")  the worker first performs every operation once (lazy imports, one-way initialisations), then runs
+        all ordered pairs over the whole operation alphabet and all triples over a sub-alphabet.
+  cold  (fmt "cold")  every history runs in its own process that has done nothing but `import sharepoint2text`
+        (c15_fresh: fork of an import-only zygote): all ordered pairs (thorough: + triples over 3 documents) over
+        {extract, restore} x the restore documents. This is where the ORDER OF FIRST USES is explored: lazily built
+        module-level tables must come out the same whichever operation touches them first.
+
+State compared (c15_state): after EVERY step - of the warm-up too, and of cold histories - the interpreter/process-wide
+settings (recursion limit, switch interval, decimal context, locale, socket timeout, umask, cwd, environ, sys.path, hooks,
+signal handlers, gc, csv field limit, logging/warnings switches, ... see c15_state.settings); after every warm history
+additionally the pypdf patch depth, archive configuration, temp dir listing, open descriptors, warnings filters, logger
+configuration, mimetypes tables, thread count, and the identity of every module-level / class-level binding of the
+library's own and of all loaded third-party modules (c15_state.ModState: generic "patched third-party function" detector).
 """
 from __future__ import annotations
 
@@ -19,6 +42,7 @@ import threading
 
 from verif.mc import pool as P
 from verif.mc import sched as S
+from verif.props import c15_docs, c15_fresh, c15_state
 
 LEVEL = "model_checking"
 LOCK_TYPES = (type(threading.Lock()), type(threading.RLock()))
@@ -234,6 +258,7 @@ _INST = {}
 
 
 def _target(name):
+    c15_fresh.DIRTY.append("target " + name)
     if name not in _INST:
         _INST[name] = TARGETS[name]()
     return _INST[name]
@@ -344,8 +369,12 @@ _GEN = {}
 
 def _load(doc):
     if doc.startswith("gen:"):
-        if not _GEN:
+        if doc not in _GEN:
             _GEN.update(_gen_docs())
+        return _GEN[doc]
+    if doc.startswith("deep:"):
+        if doc not in _GEN:
+            _GEN[doc] = c15_docs.load(doc)
         return _GEN[doc]
     if doc.startswith("trunc:"):
         data = open(os.path.join(FIX, doc[6:]), "rb").read()
@@ -360,7 +389,35 @@ def _digest_results(res):
     return "ok:" + h.hexdigest()[:16] + f":{len(res)}"
 
 
+_PAYLOADS = {}      # doc id -> JSON text of [result.to_json() ...] as stored by a fresh process (set from the task argument)
+
+
+def _payload_of(res):
+    return json.dumps([r.to_json() for r in res], sort_keys=True, default=repr)
+
+
+def _restore_digest(doc):
+    """restore the stored payload of `doc`: class names of what comes back + its re-serialisation"""
+    from sharepoint2text.parsing.extractors.data_types import ExtractionInterface
+    try:
+        h = hashlib.sha256()
+        names = []
+        for item in json.loads(_PAYLOADS[doc]):
+            obj = ExtractionInterface.from_json(item)
+            names.append(type(obj).__name__)
+            back = obj.to_json() if hasattr(obj, "to_json") else obj
+            h.update(json.dumps([type(obj).__name__, back], sort_keys=True, default=repr).encode())
+        return "ok:" + h.hexdigest()[:16] + ":" + ",".join(names)
+    except Exception as e:  # noqa
+        return "exc:" + type(e).__name__
+
+
 def _digest(doc, keep=None):
+    c15_fresh.DIRTY.append(doc)
+    if doc.startswith("restore:"):
+        if keep is not None:
+            keep.append(None)
+        return _restore_digest(doc[8:])
     import sharepoint2text
     data, name = _load(doc)
     try:
@@ -376,7 +433,7 @@ def _digest(doc, keep=None):
         return "exc:" + type(e).__name__
 
 
-def _snapshot():
+def _snapshot(collect=True):
     import logging
     import mimetypes
     import tempfile
@@ -391,25 +448,101 @@ def _snapshot():
     snap["archive_config"] = repr(ae._config)
     tmp = tempfile.gettempdir()
     snap["tmp"] = sorted(os.listdir(tmp))
-    gc.collect()
+    if collect:
+        gc.collect()
     try:
         snap["fds"] = len(os.listdir("/proc/self/fd"))
     except Exception:
         snap["fds"] = -1
-    snap["warn_filters"] = len(warnings.filters)
-    snap["root_handlers"] = len(logging.getLogger().handlers)
+    snap["warn_filters"] = tuple(repr(f) for f in warnings.filters)
+    snap["root_handlers"] = tuple(type(h).__name__ for h in logging.getLogger().handlers)
+    snap["loggers"] = {n: (lg.level, len(lg.handlers), lg.propagate, lg.disabled, len(lg.filters))
+                       for n, lg in list(logging.root.manager.loggerDict.items()) if isinstance(lg, logging.Logger)}
+    snap["mimetypes"] = (mimetypes.inited, hash(frozenset(mimetypes.types_map.items())), hash(frozenset(mimetypes.common_types.items())),
+                         hash(frozenset(mimetypes.suffix_map.items())), hash(frozenset(mimetypes.encodings_map.items())),
+                         None if mimetypes._db is None else hash(frozenset(mimetypes._db.types_map[True].items())))
+    et = sys.modules.get("xml.etree.ElementTree")      # third-party packages register their prefixes when they are imported
+    snap["ElementTree.namespace_map"] = None if et is None else tuple(sorted(et._namespace_map.items()))
     snap["cwd"] = os.getcwd()
     snap["threads"] = threading.active_count()
     return snap
 
 
-def _baseline_task(doc):
-    return _digest(doc)
+def _snap_diff(ref, snap):
+    """{key: (before, after)}; dict-valued entries (loggers) are compared on the names that existed before only"""
+    out = {}
+    for k in ref:
+        if isinstance(ref[k], dict):
+            d = {n: (v, snap[k].get(n)) for n, v in ref[k].items() if snap[k].get(n) != v}
+            if d:
+                out[k] = d
+        elif ref[k] != snap[k]:
+            out[k] = (ref[k], snap[k])
+    return out
+
+
+def _fresh_op(arg):
+    """runs in a forked child of an import-only process: one operation, alone"""
+    op, payload = arg
+    import tempfile
+    tempfile.tempdir = None
+    d = tempfile.mkdtemp(prefix="sp2t-verif-f-")
+    tempfile.tempdir = d
+    try:
+        if op.startswith("restore:"):
+            _PAYLOADS[op[8:]] = payload
+            return {"digest": _digest(op)}
+        keep = []
+        dg = _digest(op, keep)
+        out = {"digest": dg, "classes": None, "size": None, "payload": None}
+        if keep and keep[0] is not None:
+            pl = _payload_of(keep[0])
+            out.update(classes=[type(r).__name__ for r in keep[0]], size=len(pl), payload=pl if payload else None)
+        return out
+    finally:
+        import shutil
+        tempfile.tempdir = None
+        shutil.rmtree(d, ignore_errors=True)
+
+
+def _fresh(func, arg):
+    st, r = c15_fresh.fresh_child("verif.props.C15", func, arg)
+    if st != "done":
+        raise RuntimeError(f"fresh child {func}({str(arg)[:200]}) {st}: {r}")
+    return r
+
+
+def _baseline_task(op):
+    """isolated baseline of one operation: its outcome in a process that has done nothing else.
+    -> {"digest", "classes", "size"} for an extraction, {"digest", "payload"} for a restore operation"""
+    if op.startswith("restore:"):
+        pl = _fresh("_fresh_op", (op[8:], True))["payload"]
+        if pl is None:
+            raise RuntimeError(f"{op}: the document has no result to store")
+        r = _fresh("_fresh_op", (op, pl))
+        r["payload"] = pl
+        return r
+    return _fresh("_fresh_op", (op, False))
+
+
+def _settings_step(ref, fmt, hist, fails, what):
+    """compare the process-wide settings with `ref` after one step; on drift record it, put back what can be put back
+    (so that one finding does not cascade into every later case of this worker) and return the new reference"""
+    cur = c15_state.settings()
+    if cur == ref:
+        return ref
+    if not c15_state.diff(ref, cur):
+        return cur        # only settings of modules imported since were added (e.g. lxml's default parser)
+    fails.append(("history-residue", fmt, {"history": list(hist)},
+                  f"process-wide settings changed by {what}: {c15_state.diff(ref, cur)}"))
+    c15_state.restore(ref)
+    return c15_state.settings()
 
 
 def _history_task(arg):
-    """arg = (list of histories, baselines dict); each history = list of doc ids, run in THIS process sequentially."""
-    hists, base = arg
+    """arg = (list of histories, baselines dict, payloads); each history = list of operations, run in THIS process sequentially."""
+    hists, base, payloads = arg
+    _PAYLOADS.update(payloads)
     import tempfile
     tempfile.tempdir = None
     d = tempfile.mkdtemp(prefix="sp2t-verif-h-")
@@ -418,17 +551,22 @@ def _history_task(arg):
     ev = 0
     trans = 0
     outs = set()
-    # warm-up: one extraction of every document so that lazy imports / one-way patches are already in place
+    sref = c15_state.settings()
+    # warm-up: every operation once so that lazy imports / one-way initialisations are already in place; the process-wide
+    # settings are not allowed to move even here
     docs = sorted({x for h in hists for x in h})
     for x in docs:
         _digest(x)
+        sref = _settings_step(sref, "hist", [x], fails, f"the first {x} of the process")
     ref = _snapshot()
+    mods = c15_state.ModState()
     for h in hists:
         kept = []
         for i, x in enumerate(h):
             dg = _digest(x, kept)
             trans += 1
             outs.add(dg)
+            sref = _settings_step(sref, "hist", h[: i + 1], fails, f"step {i} ({x}) of {h}")
             if dg != base[x]:
                 fails.append(("history-result", "hist", {"history": h[: i + 1]}, f"after {h[:i]} document {x} gives {dg}, isolated baseline {base[x]}"))
                 break
@@ -444,16 +582,74 @@ def _history_task(arg):
                         fails.append(("history-aliasing", "hist", {"history": h}, f"the result of {x} (step {i}) changed after the later extractions {h[i + 1:]}: {again} vs {base[x]}"))
                         break
         del kept
-        snap = _snapshot()
+        snap = _snapshot(collect=False)
+        if _snap_diff(ref, snap):
+            snap = _snapshot()      # descriptors / temp files of unreachable objects only count after a collection
         ev += 1
-        if snap != ref:
-            diff = {k: (ref[k], snap[k]) for k in ref if ref[k] != snap[k]}
+        diff = _snap_diff(ref, snap)
+        if diff:
             fails.append(("history-residue", "hist", {"history": h}, f"process state changed after {h}: {diff}"))
             ref = snap
+        ch = mods.update()
+        if ch:
+            fails.append(("history-residue", "hist", {"history": h}, f"module-level bindings changed after {h}: {dict(list(sorted(ch.items()))[:8])}"))
     import shutil
     tempfile.tempdir = None
     shutil.rmtree(d, ignore_errors=True)
-    return {"ev": ev, "trans": trans, "fails": fails, "outs": len(outs)}
+    return {"ev": ev, "trans": trans, "fails": fails, "outs": len(outs), "watched_namespaces": len(mods.fast)}
+
+
+def _cold_history(arg):
+    """runs in a forked child of an import-only process: one history, no warm-up"""
+    h, base, payloads = arg
+    _PAYLOADS.update(payloads)
+    import shutil
+    import tempfile
+    tempfile.tempdir = None
+    d = tempfile.mkdtemp(prefix="sp2t-verif-c-")
+    tempfile.tempdir = d
+    fails = []
+    trans = 0
+    sref = c15_state.settings()
+    for i, x in enumerate(h):
+        dg = _digest(x)
+        trans += 1
+        sref = _settings_step(sref, "cold", h[: i + 1], fails, f"step {i} ({x}) of {h} in a fresh process")
+        if dg != base[x]:
+            fails.append(("history-result", "cold", {"history": h[: i + 1]},
+                          f"in a fresh process, after {h[:i]}, {x} gives {dg}; as the first operation of a fresh process it gives {base[x]}"))
+            break
+    tempfile.tempdir = None
+    shutil.rmtree(d, ignore_errors=True)
+    return {"trans": trans, "fails": fails}
+
+
+def _cold_task(arg):
+    hists, base, payloads = arg
+    out = {"ev": 0, "trans": 0, "fails": []}
+    for h in hists:
+        need = {x[8:] for x in h if x.startswith("restore:")}
+        r = _fresh("_cold_history", (h, {x: base[x] for x in h}, {k: payloads[k] for k in need}))
+        out["ev"] += 1
+        out["trans"] += r["trans"]
+        out["fails"] += r["fails"]
+    return out
+
+
+def _baselines(ops, ncpu, herr):
+    """-> (digest per operation, payload per restore document, info per extraction)"""
+    res = P.run_all("verif.props.C15", "_baseline_task", ops, n=max(1, min(ncpu, len(ops))), hard_timeout=900)
+    base, payloads, info = {}, {}, {}
+    for a, (st, r, _) in zip(ops, res):
+        if st != "done":
+            herr.append(f"baseline {a} failed: {st}: {str(r)[-300:]}")
+            continue
+        base[a] = r["digest"]
+        if a.startswith("restore:"):
+            payloads[a[8:]] = r["payload"]
+        else:
+            info[a] = (r["classes"], r["size"])
+    return base, payloads, info
 
 
 def reexec(fmt, case):
@@ -461,11 +657,14 @@ def reexec(fmt, case):
         key, msgs, s = run_schedule(case["target"], case["threads"], case["trace"])
         _target(case["target"]).setup()
         return msgs
-    if fmt == "hist":
-        docs = sorted(set(case["history"]))
-        res = P.run_all("verif.props.C15", "_baseline_task", docs, n=min(8, len(docs)))
-        base = {d: r[1] for d, r in zip(docs, res)}
-        r = P.run_all("verif.props.C15", "_history_task", [([case["history"]], base)], n=1)
+    if fmt in ("hist", "cold"):
+        herr = []
+        ops = sorted(set(case["history"]))
+        base, payloads, _ = _baselines(ops, 8, herr)
+        if herr:
+            return []
+        task = "_history_task" if fmt == "hist" else "_cold_task"
+        r = P.run_all("verif.props.C15", task, [([case["history"]], base, payloads)], n=1, hard_timeout=3000)
         return [(c, m) for c, f, cs, m in r[0][1]["fails"]] if r[0][0] == "done" else []
     return []
 
@@ -508,8 +707,23 @@ def fingerprint_view(case):
     return case
 
 
+def _cpu():
+    import resource
+    r = resource.getrusage(resource.RUSAGE_CHILDREN)
+    return r.ru_utime + r.ru_stime
+
+
 def run(ctx):
     quick = ctx.quick
+    import time
+    phase = {}
+    t0, c0 = time.time(), _cpu()
+
+    def mark(name):
+        nonlocal t0, c0
+        t1, c1 = time.time(), _cpu()
+        phase[name] = {"wall_s": round(t1 - t0, 1), "cpu_s": round(c1 - c0, 1)}     # cost accounting only, never part of a verdict
+        t0, c0 = t1, c1
     plans = []       # (target, threads, bound)
     for name in TARGETS:
         plans.append((name, 2, 2 if quick else 3))
@@ -547,46 +761,104 @@ def run(ctx):
         fails += [tuple(x) for x in r["fails"]]
         if len(samples) < 3 and r["executions"] > 3:
             samples.append(r["sample"])
+    mark("schedules")
     # histories
     alpha = history_alphabet(ctx.tier)
     failing = [f"trunc:{a}" for a in alpha[:: max(1, len(alpha) // 4)]][:4]
-    alpha = alpha + failing + sorted(_gen_docs())
-    bres = P.run_all("verif.props.C15", "_baseline_task", alpha, n=ctx.ncpu, hard_timeout=600)
-    base = {}
-    for a, (st, r, _) in zip(alpha, bres):
-        if st != "done":
-            herr.append(f"baseline {a} failed: {st}: {str(r)[-300:]}")
-        else:
-            base[a] = r
+    deep = c15_docs.family(ctx.tier)
+    alpha = alpha + failing + sorted(_gen_docs()) + deep
+    base, _, info = _baselines(alpha, ctx.ncpu, herr)
     alpha = [a for a in alpha if a in base]
-    pairs = [[a, b] for a in alpha for b in alpha]
-    sub = alpha[:: max(1, len(alpha) // (6 if quick else 10))][: (6 if quick else 10)]
+    # restore operations: one document per result class - the one with the smallest stored payload
+    by_class = {}
+    for a in alpha:
+        classes, size = info[a]
+        if classes and len(classes) == 1 and size <= (2 << 20):
+            k = classes[0]
+            if k not in by_class or (size, a) < by_class[k]:
+                by_class[k] = (size, a)
+    rdocs_all = [by_class[k][1] for k in sorted(by_class)]
+    nr = 8 if quick else len(rdocs_all)
+    rdocs = rdocs_all if len(rdocs_all) <= nr else [rdocs_all[(i * len(rdocs_all)) // nr] for i in range(nr)]
+    rops = [f"restore:{d}" for d in rdocs]
+    rbase, payloads, _ = _baselines(rops, ctx.ncpu, herr)
+    base.update(rbase)
+    rops = [r for r in rops if r in base]
+    rdocs = [r[8:] for r in rops]
+    ops = alpha + rops
+    mark("baselines")
+    pairs = [[a, b] for a in ops for b in ops]
+    nsub = 5 if quick else 9
+    sub = alpha[:: max(1, len(alpha) // nsub)][:nsub]
+    for extra in [x for x in deep if x.endswith(":2")][:1] + rops[:1]:      # a deep failure and a restore take part in the triples
+        if extra not in sub:
+            sub.append(extra)
     triples = [[a, b, c] for a in sub for b in sub for c in sub]
     hists = pairs + triples
     random.Random(ctx.seed).shuffle(hists)
     nchunk = ctx.ncpu * 2
     chunks = [hists[i::nchunk] for i in range(nchunk)]
-    hres = P.run_all("verif.props.C15", "_history_task", [(c, base) for c in chunks if c], n=ctx.ncpu, hard_timeout=3000)
+    hres = P.run_all("verif.props.C15", "_history_task", [(c, base, payloads) for c in chunks if c], n=ctx.ncpu, hard_timeout=3000)
     hev = htrans = 0
+    watched = 0
     for st, r, _ in hres:
         if st != "done":
             herr.append(f"history task failed: {st}: {str(r)[-500:]}")
             continue
         hev += r["ev"]
         htrans += r["trans"]
+        watched = max(watched, r["watched_namespaces"])
         fails += [tuple(x) for x in r["fails"]]
-    samples.append({"history": hists[0] if hists else None, "alphabet": alpha})
-    cov = {"states": execs + hev, "transitions": steps + htrans, "traces_validated_against_impl": execs + hev, "samples": samples,
-           "evaluations": execs + hev, "distinct_nontrivial": len(outcomes),
+    mark("warm_histories")
+    # cold histories: every one in its own import-only process
+    cops = [x for d in rdocs for x in (d, f"restore:{d}")]
+    cpairs = [[a, b] for a in cops for b in cops]
+    csub = [x for d in rdocs[:: max(1, len(rdocs) // 3)][:3] for x in (d, f"restore:{d}")]
+    ctriples = [] if quick else [[a, b, c] for a in csub for b in csub for c in csub]
+    chists = cpairs + ctriples
+    random.Random(ctx.seed).shuffle(chists)
+    nchunk = ctx.ncpu * 4
+    cres = P.run_all("verif.props.C15", "_cold_task", [(c, {x: base[x] for x in cops}, payloads) for c in (chists[i::nchunk] for i in range(nchunk)) if c],
+                     n=ctx.ncpu, hard_timeout=3000)
+    cev = ctrans = 0
+    for st, r, _ in cres:
+        if st != "done":
+            herr.append(f"cold history task failed: {st}: {str(r)[-500:]}")
+            continue
+        cev += r["ev"]
+        ctrans += r["trans"]
+        fails += [tuple(x) for x in r["fails"]]
+    mark("cold_histories")
+    samples.append({"history": hists[0] if hists else None, "cold_history": chists[0] if chists else None, "alphabet": ops,
+                    "restore_documents_per_class": {k: by_class[k][1] for k in sorted(by_class)}})
+    cov = {"states": execs + hev + cev, "transitions": steps + htrans + ctrans, "traces_validated_against_impl": execs + hev + cev, "samples": samples,
+           "evaluations": execs + hev + cev, "distinct_nontrivial": len(outcomes),
            "schedules": {"executions": execs, "scheduling_steps": steps, "per_target": per, "distinct_outcomes": len(outcomes),
                          "outcomes": dict(list(sorted(outcomes.items()))[:60])},
-           "histories": {"histories": hev, "extractions": htrans, "alphabet_size": len(alpha), "pairs": len(pairs), "triples": len(triples)},
+           "histories": {"histories": hev, "extractions": htrans, "alphabet_size": len(ops), "documents": len(alpha), "restore_operations": len(rops),
+                         "deep_documents": deep, "pairs": len(pairs), "triples": len(triples), "triple_alphabet": sub,
+                         "watched_module_namespaces": watched, "settings_watched": sorted(c15_state.settings())},
+           "cold_histories": {"histories": cev, "operations": ctrans, "alphabet": cops, "pairs": len(cpairs), "triples": len(ctriples),
+                              "process": "fork of a process that only imported sharepoint2text, one per history"},
            "rule": "schedules: all interleavings of 2 threads with <= 2 (quick) / 3 preemptions and 3 threads with <= 1 / 2 preemptions through "
                    "(1) the pypdf patch/extract/restore section, (2) the AES round-key LRU cache, (3) the lazily built type registry, at line "
-                   "granularity with loop collapsing (first 2 iterations); histories: all ordered pairs over the fixture alphabet (+ truncated "
-                   "failing inputs) and all triples over a sub-alphabet, each step compared with a fresh-process baseline and the process-state snapshot",
-           "exhaustive": True, "bounds": {"preemptions_2_threads": 2 if quick else 3, "preemptions_3_threads": 1 if quick else 2}}
+                   "granularity with loop collapsing (first 2 iterations); warm histories: all ordered pairs over the operation alphabet (extract + "
+                   "serialise every fixture / truncated / generated / deep-nesting document; restore the fresh-process payload of one document "
+                   "per result class) and all triples over a sub-alphabet, each step compared with a fresh-process baseline, process-wide "
+                   "settings compared after every step (warm-up included), full process-state snapshot and module-binding identities after "
+                   "every history; cold histories: all ordered pairs (thorough: + triples over 3 documents) over {extract, restore} x restore "
+                   "documents, each history in its own import-only process, results against the single-operation fresh process, settings after every step",
+           "cost": phase,
+           "exhaustive": True, "bounds": {"preemptions_2_threads": 2 if quick else 3, "preemptions_3_threads": 1 if quick else 2,
+                                          "history_length_pairs_over": len(ops), "history_length_triples_over": len(sub),
+                                          "cold_pairs_over": len(cops), "cold_triples_over": len(csub) if not quick else 0,
+                                          "deep_nesting_depths": sorted({c15_docs.MULT[x.split(":")[2]] for x in deep}), "restore_classes": len(rops)}}
     return {"coverage": cov, "failures": fails, "harness_errors": herr,
             "assumptions": ["line-level scheduling points suffice: each traced line performs at most one shared-state access",
                             "functools.lru_cache helpers are implemented in C with their own lock and are not explored",
-                            "memory-model effects below the GIL are not modelled"]}
+                            "memory-model effects below the GIL are not modelled",
+                            "a forked child of a process that only imported the package stands for a fresh interpreter after that import",
+                            "module-level containers (caches, registries) are watched by identity only; what they hold is judged through the results "
+                            "of the following operations",
+                            "the warm-up (every operation once per worker, in sorted order) may perform one-way lazy initialisations; their "
+                            "dependence on the order of first uses is what the cold histories explore"]}
